@@ -104,13 +104,13 @@ Definition c06_choice (k : list nat * option nat * nat) : bool :=
 (* ---- C11 / C05 in process: single-seat observers (own hand + dummy's hand once set) ----
    each observer is fed every accepted play and those refused attempts it is in a position to refuse itself
    (out of turn, or from a seat whose hand it knows).
-   case = (bid, declarer, deal, per observer seat: attempts, (accepted?, unchanged?, projection after) per attempt,
+   case = (bid, declarer (+ 4 in a "late" case), deal, per observer seat: attempts, (accepted?, unchanged?, projection after) per attempt,
            final (own hand, dummy hand if set, history)) *)
 Definition c11obs := (list (nat * nat) * list (bool * bool * proj) * (list nat * option (list nat) * list (nat * list nat)))%type.
 Definition c11case := (nat * nat * list (list nat) * list c11obs)%type.
 Definition played_by (p : nat) (ops : list (nat * nat)) : list nat := map fst (filter (fun o => snd o =? p) ops).
 Definition minus (a b : list nat) : list nat := filter (fun x => negb (mem x b)) a.
-Fixpoint c11_walk (tr : strain) (me dm : nat) (deal : list (list nat)) (r : ref) (mine : list nat) (dh : option (list nat)) (started : bool)
+Fixpoint c11_walk (late : bool) (tr : strain) (me dm : nat) (deal : list (list nat)) (r : ref) (mine : list nat) (dh : option (list nat)) (started : bool)
          (ops : list (nat * nat)) (obs : list (bool * bool * proj)) (i : nat) : nat * (ref * list nat * option (list nat)) :=
   match ops, obs with
   | [], [] => (0, (r, mine, dh))
@@ -125,20 +125,26 @@ Fixpoint c11_walk (tr : strain) (me dm : nat) (deal : list (list nat)) (r : ref)
         let mine' := if p =? me then rem c mine else mine in
         let dh1 := if p =? me then dh else if p =? dm then option_map (rem c) dh else dh in
         (* dummy's hand is laid down right after the first accepted card, for every observer but dummy *)
-        let dh' := if negb started && negb (me =? dm) then Some (if p =? dm then rem c (nth dm deal []) else nth dm deal []) else dh1 in
-        if proj_eqb pj (ref_proj r') && negb unch then c11_walk tr me dm deal r' mine' dh' true os bs (S i) else (S i, (r, mine, dh))
-      else if unch && proj_eqb pj (ref_proj r) then c11_walk tr me dm deal r mine dh started os bs (S i) else (S i, (r, mine, dh))
+        let dh' := if negb late && negb started && negb (me =? dm) then Some (if p =? dm then rem c (nth dm deal []) else nth dm deal []) else dh1 in
+        if proj_eqb pj (ref_proj r') && negb unch then c11_walk late tr me dm deal r' mine' dh' true os bs (S i) else (S i, (r, mine, dh))
+      else if unch && proj_eqb pj (ref_proj r) then
+        (* "late" cases: dummy's hand is shown to the observer only after it has refused dummy's first play (hand not set);
+           the same play is then offered again *)
+        let dh2 := if late && (p =? dm) && negb (me =? dm) && (p =? seat_idx (ref_turn r)) && match dh with None => true | Some _ => false end
+                   then Some (nth dm deal []) else dh in
+        c11_walk late tr me dm deal r mine dh2 started os bs (S i) else (S i, (r, mine, dh))
   | _, _ => (S i, (r, mine, dh)) end.
-Definition c11_observer (tr : strain) (decl : seat) (deal : list (list nat)) (me : nat) (o : c11obs) : nat :=
+Definition c11_observer (late : bool) (tr : strain) (decl : seat) (deal : list (list nat)) (me : nat) (o : c11obs) : nat :=
   let '(ops, steps, (fh, fd, fhist)) := o in
   let dm := seat_idx (partner decl) in
-  let '(r, (f, mine, dh)) := c11_walk tr me dm deal (ref_init decl) (nth me deal []) None false ops steps 0 in
+  let '(r, (f, mine, dh)) := c11_walk late tr me dm deal (ref_init decl) (nth me deal []) None false ops steps 0 in
   if r =? 0 then
     if list_eqb Nat.eqb fh (sort_nat mine) && hist_eqb fhist (r_hist f) && opt_eqb (list_eqb Nat.eqb) fd (option_map sort_nat dh)
     then 0 else 1000
   else r.
 Definition c11_case (k : c11case) : nat :=
-  let '(b, d, deal, obss) := k in
+  let '(b, d0, deal, obss) := k in
+  let late := 4 <=? d0 in let d := d0 mod 4 in       (* declarer + 4 marks a "late" case *)
   let tr := strain_of_bid b in
-  fold_right (fun '(me, o) acc => let r := c11_observer tr (sn d) deal me o in if r =? 0 then acc else 2000 * (S me) + r)
+  fold_right (fun '(me, o) acc => let r := c11_observer late tr (sn d) deal me o in if r =? 0 then acc else 2000 * (S me) + r)
              0 (combine (seq 0 4) obss).
